@@ -106,6 +106,13 @@ def known_findings():
     return json.load(open(p)).get('findings', [])
 
 
+def load_baseline(prop):
+    p = os.path.join(VERIF, 'baseline', prop + '.json')
+    if not os.path.exists(p): return {}
+    try: return json.load(open(p))
+    except Exception: return {}
+
+
 def match_known(prop, obligation, witness=None):
     for f in known_findings():
         if f.get('state') != 'open' or f.get('property') != prop: continue
@@ -232,8 +239,37 @@ def main(argv):
                                      'functions under contract or in a trusted model'))
             json.dump(rec, open(rp, 'w'), indent=1, default=str)
             violations.append((rp, True, rec['obligation']))
+    # --- obligations that were discharged on the baseline tree (baseline/<prop>.json, committed) and cannot be discharged now,
+    #     in a function whose source text changed: reported as violations with the solver's reason (no failing input)
+    base = load_baseline(prop)
+    sha_now = {i['function']: i['sha256'] for i in infos}
+    reported = {name for _, _, name in violations}
+    if base and not refuted:
+        for v in undec:
+            b = base.get(v.func)
+            if not b or v.name in reported or v.name not in b['proved']: continue
+            root = next((i['function'] for i in infos if i['function'].split(':')[1] in v.name), v.func)
+            changed = any(base.get(f, {}).get('sha256') != h for f, h in sha_now.items()) if b else False
+            if not changed: continue          # same source text as the baseline: solver instability, not a code change
+            if match_known(prop, v.name): known.append((v.name, match_known(prop, v.name))); continue
+            rp = os.path.join(VERIF, 'replays', prop, hashlib.sha1(v.name.encode()).hexdigest()[:12] + '.json')
+            rec = dict(property=prop, obligation=v.name, confirmed=False,
+                       function=dict(qualname=v.func, sha256_now=sha_now.get(v.func), sha256_baseline=b.get('sha256')),
+                       verifier=dict(backend='z3', result=v.result, reason=v.model, kind=v.kind, line=v.line,
+                                     note='this obligation was discharged on the baseline tree and is not discharged on the current, changed source; '
+                                          'the solver gave no counter-model and the bounded search found no failing input'))
+            json.dump(rec, open(rp, 'w'), indent=1, default=str)
+            violations.append((rp, False, v.name))
     wall = time.time() - t0
     write_evidence(prop, tier, seed, spec, vcs, infos, und, hres, backends, wall, len(violations))
+    if os.environ.get('PYVC_WRITE_BASELINE') and not violations and not undec and not und and not refuted:
+        os.makedirs(os.path.join(VERIF, 'baseline'), exist_ok=True)
+        bl = {}
+        for i in infos: bl[i['function']] = dict(sha256=i['sha256'], proved=[])
+        for v in vcs:
+            if vcmod.status(v) == 'proved' and v.expect != 'sat': bl.setdefault(v.func, dict(sha256='', proved=[]))['proved'].append(v.name)
+        for k in bl: bl[k]['proved'] = sorted(set(bl[k]['proved']))
+        json.dump(bl, open(os.path.join(VERIF, 'baseline', prop + '.json'), 'w'), indent=0, sort_keys=True)
     print('%s tier=%s: %d obligations, %d discharged, %d refuted, %d undecided; functions undecided: %d; '
           'bounded stand-in: %s evaluations, %d failures; %.1fs'
           % (prop, tier, len(vcs), len(proved), len(refuted), len(undec), len(und),
